@@ -237,8 +237,9 @@ func (a *asyncFifoRetryImpl) overwrite(ctx context.Context, key []byte, prevOpRe
 		return 0, err
 	}
 
-	if len(val) == 0 || modRev != prevOpRev {
-		// not found or revision not match, just do nothing and return
+	if modRev != prevOpRev {
+		// revision not match, just do nothing and return
+		// (a missing key is reported by the getter as ErrKeyNotFound above; an empty value is a value)
 		//! we assume:
 		//!   if getting is successful, it should be the latest value.
 		//!   and the result of prev uncertain operation can be certain now,
